@@ -228,3 +228,35 @@ func sqlWitness(c *fw.Case, w *fw.Finding) {
 }
 
 func sleepMs(n int) { time.Sleep(time.Duration(n) * time.Millisecond) }
+
+// nativize replaces the integral float64 values of one column of a table by
+// natively typed Go integers (documents built in Go rather than decoded from
+// JSON carry them); fractional values stay float64. The reference model keeps
+// working on the float64 image, which denotes the same numbers.
+func nativize(c *fw.Case, rows []any, col string) {
+	kind := c.Intn(4)
+	for _, r := range rows {
+		m, ok := r.(map[string]any)
+		if !ok {
+			continue
+		}
+		f, ok := m[col].(float64)
+		if !ok || f != float64(int64(f)) || f > 1e15 || f < -1e15 {
+			continue
+		}
+		switch kind {
+		case 0:
+			m[col] = int(f)
+		case 1:
+			m[col] = int64(f)
+		case 2:
+			m[col] = int32(f)
+		default:
+			if f >= 0 {
+				m[col] = uint64(f)
+			} else {
+				m[col] = int(f)
+			}
+		}
+	}
+}
